@@ -47,7 +47,7 @@
   composition into `read (write d) = canon d` for SIMUL, MESHM and SHORT, AUTOUGH2 objects and the
   auxiliary files; the binary MESHA/MESHB pair; idempotence of `canonV` on reals (C02's domain).
 -/
-import PyTough.Proofs.T2WholeMesh
+import PyTough.Proofs.T2Whole2Fields
 open Py Model Model.T2 Proofs Proofs.T2 Proofs.Incon
 open Gen.Sections (Rec)
 namespace Props.C01
@@ -439,19 +439,25 @@ abbrev canonWhole (d d' : T2Data) : T2Data :=
     continuation that begins with a keyword line, returns its canonical value and leaves the continuation; PARAM
     hands the keyword line it read ahead back to the loop; ENDCY/ENDFI stops it).
     `_partial`: the object's sections are restricted to the kinds in `wholeKinds` (ROCKS PARAM MOMOP START NOVER
-    ELEME CONNE GENER LINEQ SOLVR RPCAP TIMES SELEC INCON INDOM MULTI DIFFU FOFT GOFT COFT — decidable, `hkinds`), to the TOUGH2 flavour without SIMUL (`hsim`), the mesh in the file
+    ELEME CONNE GENER LINEQ SOLVR RPCAP TIMES SELEC INCON INDOM MULTI DIFFU FOFT GOFT COFT MESHM SHORT SIMUL, i.e. all 23 —
+    decidable, `hkinds`), to a TOUGH2-flavour object or an AUTOUGH2 object (SIMUL section, `param1_autough2` /
+    `multi_autough2` records) written without extra-precision arguments (`hfl : FlavourOK d cfg`), the mesh in the file
     (`hcfg`) and no extra-precision companion (`hxp`).  `hgood` collects the side conditions of the per-section
     theorems, each on the reader's object at the moment the section is met (so blocks are resolved against the
     rock types *read*, connections against the blocks *read*).  COFT only while the reader has no
-    grid yet (its section theorem is for names, not resolved connections).  Missing: SIMUL (AUTOUGH2 objects), MESHM
-    (its keyword line is `MESHMAKER`, not the five-letter keyword), SHORT; the binary and extra-precision
-    auxiliary files. -/
+    grid yet (its section theorem is for names, not resolved connections).  MESHM (keyword line `MESHMAKER`) and
+    SHORT (header line `SHORT` + frequency, which its reader parses — raw, or padded when PARAM read it ahead) are
+    included: SHORT's names are resolved against the blocks / connections / generators *read* before it.
+    SIMUL: the simulator string comes back stripped and cut to 80 columns (`canonSimulator`); its side condition is
+    that this is not empty, so that the reader takes the AUTOUGH2 records too (`GoodParam.flavour`, MULTI's flavour
+    condition then hold on the reader's state).
+    Missing: the binary and extra-precision auxiliary files (AUTOUGH2 objects written with `extra_precision` set). -/
 theorem read_write_whole_partial (d : T2Data) (cfg : WriteCfg) (d' : T2Data) (f : Files) (hw : d.write cfg = .ok (d', f))
-    (hsim : d.simulator = []) (hxp : d.extraPrecision = []) (hcfg : cfg.mesh = .infile) (hend : IsEnd d.endKeyword)
+    (hfl : FlavourOK d cfg) (hxp : d.extraPrecision = []) (hcfg : cfg.mesh = .infile) (hend : IsEnd d.endKeyword)
     (hkinds : d'.sections.all (wholeKinds.contains ·) = true)
     (hgood : GoodFrom (stepCanon d') (GoodStep d') d'.sections (startObj d)) :
     T2Data.read .default f = .ok (canonWhole d d') :=
-  whole_read_write d (stepCanon d') (GoodStep d') (· ∈ wholeKinds) wholeKinds_sections hsim hxp hend cfg hcfg d' f hw
+  whole_read_write d (stepCanon d') (GoodStep d') (· ∈ wholeKinds) wholeKinds_sections hxp hend cfg hfl hcfg d' f hw
     (fun kw d0 hk hx hg => step_ok d' kw d0 hk hx hg)
     (fun kw hk => by simpa using (List.all_eq_true.mp hkinds) kw hk) hgood
 
@@ -477,7 +483,7 @@ abbrev canonWholeMesh (d d' : T2Data) : T2Data :=
     last.) -/
 theorem read_write_whole_meshfile_partial (d : T2Data) (cfg : WriteCfg) (d' : T2Data) (f : Files)
     (hw : d.write cfg = .ok (d', f))
-    (hsim : d.simulator = []) (hxp : d.extraPrecision = []) (hcfg : cfg.mesh = .ascii) (hend : IsEnd d.endKeyword)
+    (hfl : FlavourOK d cfg) (hxp : d.extraPrecision = []) (hcfg : cfg.mesh = .ascii) (hend : IsEnd d.endKeyword)
     (hkinds : (d'.sections.filter notMesh).all (wholeKinds.contains ·) = true)
     (hgood : GoodFrom (stepCanon d') (GoodStep d') (d'.sections.filter notMesh) (startObj d))
     (hb : ∀ b ∈ d'.blocks, GoodBlock (canonFrom (stepCanon d') (d'.sections.filter notMesh) (startObj d)).rocks b)
@@ -493,10 +499,10 @@ theorem read_write_whole_meshfile_partial (d : T2Data) (cfg : WriteCfg) (d' : T2
       exact absurd this (by decide)
     rw [if_neg hn] at h
     exact h
-  refine ⟨?_, whole_read_write_ascii d (stepCanon d') (GoodStep d') (· ∈ wholeKinds) wholeKinds_sections hsim hxp hend cfg hcfg
+  refine ⟨?_, whole_read_write_ascii d (stepCanon d') (GoodStep d') (· ∈ wholeKinds) wholeKinds_sections hxp hend cfg hfl hcfg
     d' f hw (fun kw d0 hk hx hg => step_ok d' kw d0 hk hx hg)
     (fun kw hk => by simpa using (List.all_eq_true.mp hkinds) kw hk) hgood hnob hb hwb hc hwc⟩
-  obtain ⟨_, _, _, _, _, _, _, rfl⟩ := write_ascii d hsim hxp cfg hcfg d' f hw
+  obtain ⟨_, _, _, _, _, _, _, rfl⟩ := write_ascii d hxp cfg hfl hcfg d' f hw
   rfl
 
 /-- **the whole model, field by field**: in the object read back, the title is the written one (cut to 80 columns);
@@ -528,14 +534,123 @@ theorem whole_fields (d d' : T2Data) :
     rw [if_pos h] at h1
     exact h1
 
+/-- **the whole model, field by field — the remaining nouns of the property** (initial conditions, output times,
+    history requests, selection / diffusion entries, mesh-maker entries, short-output lists, INDOM, the simulator
+    string, the parameter dictionary and time steps): for a section `kw` that occurs once in the written section
+    list (`pre ++ kw :: post`), the field it fills in the object read back is its section theorem's canonical value
+    of the written object's field — starting from the fresh object's empty value; FOFT / GOFT items are resolved
+    against the blocks read if ELEME precedes them and stay bare names otherwise; the parameters are what PARAM's
+    three dictionary lines make of the reader's parameters at that moment (`readerAt`: the defaults, and the flavour
+    SIMUL set). -/
+theorem whole_fields_once (d d' : T2Data) (kw : Str) (pre post : List Str) (hs : d'.sections = pre ++ kw :: post)
+    (hpre : kw ∉ pre) (hpost : kw ∉ post) :
+    (kw = c!"INCON" → (canonWhole d d').incon = canonIncons (writtenIncons d') []) ∧
+    (kw = c!"TIMES" → (canonWhole d d').outputTimes = canonTimes d'.outputTimes ⟨[], none⟩ (d'.outputTimes.time.getD [])) ∧
+    (kw = c!"FOFT" → (canonWhole d d').historyBlock =
+        canonHistory d'.historyBlock (if c!"ELEME" ∈ pre then canonBlocks d'.blocks else [])) ∧
+    (kw = c!"GOFT" → (canonWhole d d').historyGen =
+        canonHistory d'.historyGen (if c!"ELEME" ∈ pre then canonBlocks d'.blocks else [])) ∧
+    (kw = c!"COFT" → (canonWhole d d').historyConn =
+        d'.historyConn.map (fun i => { isObj := false, n1 := cycleName i.n1, n2 := cycleName i.n2 })) ∧
+    (kw = c!"SELEC" → (canonWhole d d').selection = d'.selection.map canonSelection) ∧
+    (kw = c!"DIFFU" → (canonWhole d d').diffusion = d'.diffusion.map (·.map (canonV (mf c!"diffusion" 0)))) ∧
+    (kw = c!"MESHM" → (canonWhole d d').meshmaker = canonMeshMaker d'.meshmaker) ∧
+    (kw = c!"SHORT" → (canonWhole d d').short =
+        (gsOf d'.short).foldl ShortGrp.apply ⟨some (canonFreq d'.short), none, none, none⟩) ∧
+    (kw = c!"SIMUL" → (canonWhole d d').simulator = canonSimulator d') ∧
+    (kw = c!"INDOM" → (canonWhole d d').indom = canonIndom d'.indom []) ∧
+    (kw = c!"PARAM" → (canonWhole d d').parameter = paramAfter3 (pr1 d') pr2 pr3 d' (readerAt d d' pre) ∧
+        (canonWhole d d').timestep = canonTimesteps (pr1 d') pr2 fts d' (readerAt d d' pre) ∧
+        (readerAt d d' pre).parameter = T2Data.empty.parameter) := by
+  have key : ∀ {α : Type} (π : T2Data → α), (∀ x s, π { x with sections := s } = π x) →
+      (∀ k x, k ≠ kw → π (stepCanon d' k x) = π x) →
+      π (canonFrom (stepCanon d') d'.sections (startObj d)) = π (stepCanon d' kw (readerAt d d' pre)) ∧
+      π (readerAt d d' pre) = π (startObj d) := by
+    intro α π h1 h2
+    rw [hs]
+    exact canonFrom_once π (stepCanon d') kw h1 h2 pre post (startObj d) hpre hpost
+  refine ⟨?_, ?_, ?_, ?_, ?_, ?_, ?_, ?_, ?_, ?_, ?_, ?_⟩
+  · rintro rfl
+    obtain ⟨h1, h2⟩ := key T2Data.incon (fun _ _ => rfl) (stepCanon_incon_other d')
+    show (canonFrom (stepCanon d') d'.sections (startObj d)).incon = _
+    rw [h1]
+    show canonIncons (writtenIncons d') (readerAt d d' pre).incon = _
+    rw [h2]; rfl
+  · rintro rfl
+    obtain ⟨h1, h2⟩ := key T2Data.outputTimes (fun _ _ => rfl) (stepCanon_outputTimes_other d')
+    show (canonFrom (stepCanon d') d'.sections (startObj d)).outputTimes = _
+    rw [h1]
+    show canonTimes d'.outputTimes (readerAt d d' pre).outputTimes _ = _
+    rw [h2]; rfl
+  · rintro rfl
+    obtain ⟨h1, _⟩ := key T2Data.historyBlock (fun _ _ => rfl) (stepCanon_historyBlock_other d')
+    show (canonFrom (stepCanon d') d'.sections (startObj d)).historyBlock = _
+    rw [h1]
+    show canonHistory d'.historyBlock (readerAt d d' pre).blocks = _
+    rw [show (readerAt d d' pre).blocks = _ from
+      canonFrom_proj T2Data.blocks _ c!"ELEME" _ (fun _ _ => rfl) (stepCanon_blocks d') pre (startObj d)]
+    rfl
+  · rintro rfl
+    obtain ⟨h1, _⟩ := key T2Data.historyGen (fun _ _ => rfl) (stepCanon_historyGen_other d')
+    show (canonFrom (stepCanon d') d'.sections (startObj d)).historyGen = _
+    rw [h1]
+    show canonHistory d'.historyGen (readerAt d d' pre).blocks = _
+    rw [show (readerAt d d' pre).blocks = _ from
+      canonFrom_proj T2Data.blocks _ c!"ELEME" _ (fun _ _ => rfl) (stepCanon_blocks d') pre (startObj d)]
+    rfl
+  · rintro rfl
+    obtain ⟨h1, _⟩ := key T2Data.historyConn (fun _ _ => rfl) (stepCanon_historyConn_other d')
+    show (canonFrom (stepCanon d') d'.sections (startObj d)).historyConn = _
+    rw [h1]; rfl
+  · rintro rfl
+    obtain ⟨h1, _⟩ := key T2Data.selection (fun _ _ => rfl) (stepCanon_selection_other d')
+    show (canonFrom (stepCanon d') d'.sections (startObj d)).selection = _
+    rw [h1]; rfl
+  · rintro rfl
+    obtain ⟨h1, h2⟩ := key T2Data.diffusion (fun _ _ => rfl) (stepCanon_diffusion_other d')
+    show (canonFrom (stepCanon d') d'.sections (startObj d)).diffusion = _
+    rw [h1]
+    show canonDiffusion d'.diffusion (readerAt d d' pre).diffusion = _
+    rw [h2]; rfl
+  · rintro rfl
+    obtain ⟨h1, h2⟩ := key T2Data.meshmaker (fun _ _ => rfl) (stepCanon_meshmaker_other d')
+    show (canonFrom (stepCanon d') d'.sections (startObj d)).meshmaker = _
+    rw [h1]
+    show (readerAt d d' pre).meshmaker ++ canonMeshMaker d'.meshmaker = _
+    rw [h2]; rfl
+  · rintro rfl
+    obtain ⟨h1, h2⟩ := key T2Data.short (fun _ _ => rfl) (stepCanon_short_other d')
+    show (canonFrom (stepCanon d') d'.sections (startObj d)).short = _
+    rw [h1]
+    show (gsOf d'.short).foldl ShortGrp.apply { (readerAt d d' pre).short with frequency := some (canonFreq d'.short) } = _
+    rw [h2]; rfl
+  · rintro rfl
+    obtain ⟨h1, _⟩ := key T2Data.simulator (fun _ _ => rfl) (stepCanon_simulator_other d')
+    show (canonFrom (stepCanon d') d'.sections (startObj d)).simulator = _
+    rw [h1]; rfl
+  · rintro rfl
+    obtain ⟨h1, h2⟩ := key T2Data.indom (fun _ _ => rfl) (stepCanon_indom_other d')
+    show (canonFrom (stepCanon d') d'.sections (startObj d)).indom = _
+    rw [h1]
+    show canonIndom d'.indom (readerAt d d' pre).indom = _
+    rw [h2]; rfl
+  · rintro rfl
+    obtain ⟨h1, h2⟩ := key T2Data.parameter (fun _ _ => rfl) (stepCanon_parameter_other d')
+    obtain ⟨h3, _⟩ := key T2Data.timestep (fun _ _ => rfl) (stepCanon_timestep_other d')
+    refine ⟨?_, ?_, h2⟩
+    · show (canonFrom (stepCanon d') d'.sections (startObj d)).parameter = _
+      rw [h1]; rfl
+    · show (canonFrom (stepCanon d') d'.sections (startObj d)).timestep = _
+      rw [h3]; rfl
+
 /-- **the second write, for whole objects** (corollary): writing what was read from the first file is writing the
     canonical object — `write (read (write d)) = write (canon d)`, with any arguments of the second `write` -/
 theorem write_read_write_whole_partial (d : T2Data) (cfg : WriteCfg) (d' : T2Data) (f : Files) (hw : d.write cfg = .ok (d', f))
-    (hsim : d.simulator = []) (hxp : d.extraPrecision = []) (hcfg : cfg.mesh = .infile) (hend : IsEnd d.endKeyword)
+    (hfl : FlavourOK d cfg) (hxp : d.extraPrecision = []) (hcfg : cfg.mesh = .infile) (hend : IsEnd d.endKeyword)
     (hkinds : d'.sections.all (wholeKinds.contains ·) = true)
     (hgood : GoodFrom (stepCanon d') (GoodStep d') d'.sections (startObj d)) (cfg2 : WriteCfg) :
     (T2Data.read .default f).bind (fun d1 => d1.write cfg2) = (canonWhole d d').write cfg2 := by
-  rw [read_write_whole_partial d cfg d' f hw hsim hxp hcfg hend hkinds hgood]
+  rw [read_write_whole_partial d cfg d' f hw hfl hxp hcfg hend hkinds hgood]
   rfl
 
 /-- reader and writer choose `param1` / `param1_autough2` and `multi` / `multi_autough2` by the same function
@@ -740,6 +855,73 @@ theorem exWhole_good : GoodFrom (stepCanon exWhole.updateSections) (GoodStep exW
         rfl
       subst this
       decide +kernel
+
+-- a whole object with a MESHMAKER section (RZ2D, XYZ and MINC entries; its keyword line is `MESHMAKER`) and a SHORT
+-- section (frequency 5 and a block list resolved against the block read from ELEME)
+def exShort2 : Short := { frequency := some (.int 5), block := some [c!"abc05"], connection := none, generator := none }
+def exWhole2 : T2Data := { exWhole with meshmaker := exMesh, short := exShort2 }
+example : ∃ f, exWhole2.write exCfg = .ok (exWhole2.updateSections, f) := by
+  refine ⟨(match exWhole2.write exCfg with | .ok x => x.2 | .error _ => ⟨[], none, none⟩), ?_⟩
+  decide +kernel
+example : exWhole2.updateSections.sections =
+      [c!"ROCKS", c!"PARAM", c!"MOMOP", c!"START", c!"ELEME", c!"CONNE", c!"MESHM", c!"SHORT"] ∧
+    exWhole2.updateSections.sections.all (wholeKinds.contains ·) = true := by
+  refine ⟨by decide +kernel, by decide +kernel⟩
+-- the two new side conditions on that object: MESHM when it is met, SHORT on the reader's grid when it is met
+example (d0 : T2Data) : GoodStep exWhole2.updateSections c!"MESHM" d0 := by
+  refine ⟨by decide +kernel, ?_, (match exMesh.mapM (writeMeshEntry mainTabs) with | .ok l => l | .error _ => []), by decide +kernel⟩
+  intro m hm
+  have hm' : m ∈ exMesh := hm
+  simp only [exMesh, List.mem_cons, List.not_mem_nil, or_false] at hm'
+  rcases hm' with rfl | rfl | rfl
+  · exact ⟨by simp only [GoodRZSub]; decide +kernel, by simp only [GoodRZSub]; decide +kernel, trivial⟩
+  · intro s hs
+    simp only [List.mem_cons, List.not_mem_nil, or_false] at hs
+    rcases hs with rfl | rfl
+    · exact ⟨⟨_, rfl, by decide +kernel, by decide, by decide +kernel⟩, ⟨3, rfl, by decide +kernel⟩, by decide +kernel, by decide +kernel⟩
+    · exact ⟨⟨_, rfl, by decide +kernel, by decide, by decide +kernel⟩, ⟨9, rfl, by decide +kernel⟩, by decide +kernel, by decide +kernel⟩
+  · exact ⟨⟨_, _, _, _, _, rfl, by decide, by decide⟩, Or.inl rfl, ⟨_, rfl, by decide +kernel, by decide⟩, by decide, by decide +kernel⟩
+example : GoodStep exWhole2.updateSections c!"SHORT"
+    (canonFrom (stepCanon exWhole2.updateSections) [c!"ROCKS", c!"PARAM", c!"MOMOP", c!"START", c!"ELEME", c!"CONNE", c!"MESHM"]
+      (startObj exWhole2)) := by
+  refine ⟨rfl, ⟨[' ', '5'], by decide +kernel, Or.inr rfl⟩, ?_⟩
+  intro g hg
+  have hg' : g ∈ [ShortGrp.blk [c!"abc05"]] := hg
+  simp only [List.mem_cons, List.not_mem_nil, or_false] at hg'
+  subst hg'
+  intro n hn
+  simp only [List.mem_cons, List.not_mem_nil, or_false] at hn
+  subst hn
+  exact ⟨⟨rfl, by decide +kernel⟩, by unfold NotSubKw; decide +kernel, by decide +kernel⟩
+
+-- `whole_fields_once` on that object: SHORT occurs once, after ELEME; MESHM once
+example : exWhole2.updateSections.sections =
+      [c!"ROCKS", c!"PARAM", c!"MOMOP", c!"START", c!"ELEME", c!"CONNE", c!"MESHM"] ++ c!"SHORT" :: [] ∧
+    c!"SHORT" ∉ [c!"ROCKS", c!"PARAM", c!"MOMOP", c!"START", c!"ELEME", c!"CONNE", c!"MESHM"] ∧ c!"SHORT" ∉ ([] : List Str) := by
+  refine ⟨by decide +kernel, by decide +kernel, by simp⟩
+example : exWhole2.updateSections.sections =
+      [c!"ROCKS", c!"PARAM", c!"MOMOP", c!"START", c!"ELEME", c!"CONNE"] ++ c!"MESHM" :: [c!"SHORT"] ∧
+    c!"MESHM" ∉ [c!"ROCKS", c!"PARAM", c!"MOMOP", c!"START", c!"ELEME", c!"CONNE"] ∧ c!"MESHM" ∉ [c!"SHORT"] := by
+  refine ⟨by decide +kernel, by decide +kernel, by decide +kernel⟩
+
+-- an AUTOUGH2 object: SIMUL section first, then PARAM read and written with the `param1_autough2` record
+def exAut : T2Data := { exWhole with simulator := c!"AUTOUGH2.2EW" }
+example : FlavourOK exAut exCfg ∧ ¬ exAut.simulator = [] := ⟨Or.inr ⟨rfl, rfl⟩, by decide⟩
+example : ∃ f, exAut.write exCfg = .ok (exAut.updateSections, f) := by
+  refine ⟨(match exAut.write exCfg with | .ok x => x.2 | .error _ => ⟨[], none, none⟩), ?_⟩
+  decide +kernel
+example : exAut.updateSections.sections = [c!"SIMUL", c!"ROCKS", c!"PARAM", c!"MOMOP", c!"START", c!"ELEME", c!"CONNE"] := by
+  decide +kernel
+-- the side conditions of SIMUL, and of PARAM on the reader's object after SIMUL and ROCKS (AUTOUGH2 flavour on both sides)
+example : GoodStep exAut.updateSections c!"SIMUL" (startObj exAut) := ⟨by decide, by decide +kernel⟩
+example : GoodParam (pr1 exAut.updateSections) pr2 fts fdi exAut.updateSections
+    (canonFrom (stepCanon exAut.updateSections) [c!"SIMUL", c!"ROCKS"] (startObj exAut)) :=
+  { flavour := by decide +kernel, fresh := rfl, pbW := by decide +kernel,
+    mop := ⟨(match (paramAfter1 (pr1 exAut) exAut T2Data.empty).get c!"_option_str" with | some (.str s) => s | _ => []),
+            by decide +kernel, by decide +kernel⟩,
+    pb := by decide +kernel,
+    ct := ⟨-2, by decide +kernel, by decide +kernel, fun _ => by decide +kernel⟩,
+    tsVals := by decide +kernel, diVals := by decide +kernel }
 
 -- the same object written with an ASCII MESH file: the main file keeps ROCKS PARAM MOMOP START, the block goes to MESH
 example : (∃ f, exWhole.write ⟨.ascii, none, none⟩ = .ok (exWhole.updateSections, f)) ∧
